@@ -245,3 +245,34 @@ def run_with_faults(sched_seed: int, prog: Any, db_path: str, session: enginea.P
     finally:
         faults.detach()
     return res, faults
+
+
+def subvalue_link_violations(db_path: str) -> list[tuple]:
+    """Every recorded (non-error) value that has subvalues is linked to exactly those."""
+    from .dbview import DbView
+
+    view = DbView(db_path)
+    backend = schedsim.open_backend(db_path)
+    bad = []
+    try:
+        reg = backend.type_registry
+        subs: dict = {}
+        for s in view.rows("subvalue"):
+            subs.setdefault(s["parent_value_hash"], set()).add(s["value_hash"])
+        for row in view.rows("value"):
+            if row["type"] in ("redun.ErrorValue", "redun.Traceback"):
+                continue
+            try:
+                value, ok = backend.get_value(row["value_hash"])
+            except Exception:
+                continue
+            if not ok:
+                continue
+            want = {reg.get_hash(sv) for sv in reg.iter_subvalues(value)}
+            have = subs.get(row["value_hash"], set())
+            if want != have:
+                bad.append(("subvalue-links-" + ("missing" if want - have else "extra"), row["type"]))
+    finally:
+        schedsim.close_backend(backend)
+        view.close()
+    return bad
